@@ -2167,8 +2167,9 @@ def schema_config_round(ctx: Ctx):
     from ipv8.attestation.wallet.pengbaorange.algorithm import PengBaoRangeAlgorithm
     seed = ctx.rng.getrandbits(64)
     rng = _random.Random(seed)
-    kind = ["mutate-dict-after-registration", "reuse-dict-for-second-schema", "other-manager-edits-its-default",
-            "independent-dicts"][ctx.counts.get("config:round", 0) % 4]
+    kind = ["mutate-dict-after-registration", "register-same-name-again", "reuse-dict-for-second-schema",
+            "register-default-name-again", "other-manager-edits-its-default",
+            "independent-dicts"][ctx.counts.get("config:round", 0) % 6]
     ctx.count("config:round")
     ctx.count(f"config:history:{kind}")
     m1, m2 = SchemaManager(), SchemaManager()
@@ -2187,6 +2188,20 @@ def schema_config_round(ctx: Ctx):
         rp.update(a=a, b=b, a_low=a_low)
         m2.formats[name]["min"] = a_low                # a different manager edits ITS OWN copy
         wide = m2.get_algorithm_instance(name)
+    elif kind in ("register-same-name-again", "register-default-name-again"):
+        # the deployment configures a schema name a second time (e.g. tightens a default): the LAST registration counts
+        if kind == "register-default-name-again":
+            name = "id_metadata_range_18plus"
+            first = {k: v for k, v in m1.formats[name].items() if k != "algorithm"}
+            a_low, b = first["min"], first["max"]
+            a = a_low + rng.randrange(2, 9)
+            rp.update(a=a, b=b, a_low=a_low)
+        else:
+            m1.register_schema(name, "pengbaorange", {"key_size": 32, "min": a_low, "max": b})
+        m1.get_algorithm_instance(name)                  # the first configuration was in use
+        registered = {"key_size": 32, "min": a, "max": b}
+        m1.register_schema(name, "pengbaorange", dict(registered))
+        wide = PengBaoRangeAlgorithm("w", {"w": {"algorithm": "pengbaorange", "key_size": 32, "min": a_low, "max": b}})
     else:
         params = dict(registered)
         m1.register_schema(name, "pengbaorange", params)
@@ -2229,6 +2244,22 @@ def schema_config_round(ctx: Ctx):
             ctx.oracle_fail("PengBaoPublicData.check:outside-accepted",
                             f"schema {name} registered with [{a},{b}]; after `{kind}` a proof for {value} made under "
                             f"[{a_low},{b}] is accepted by it (score {score})", dict(rp, value=value))
+    # … and an honest proof made under THIS schema for a value inside its range is accepted by it
+    own_value = rng.randrange(a, b + 1)
+    try:
+        blob = alg.attest(pk, bytes([own_value]) if own_value < 256 else own_value.to_bytes(2, "big"))
+        att = alg.get_attestation_class().unserialize_private(sk, blob, name)
+        agg = alg.create_certainty_aggregate(alg.get_attestation_class().unserialize(att.serialize(), name))
+        for ch in alg.create_challenges(pk, att):
+            agg = alg.process_challenge_response(agg, ch, alg.create_challenge_response(sk, att, ch))
+        ctx.count("config:verified:own-proof")
+        if alg.certainty(b"\x01", agg) != 1.0:
+            ctx.oracle_fail("PengBaoPublicData.check:inside-rejected",
+                            f"schema {name} configured (last) with [{a},{b}], history `{kind}`: its own honest proof for "
+                            f"{own_value} is rejected", dict(rp, value=own_value))
+    except Exception as e:  # noqa: BLE001 - the random split m2 < 0 (p ~ 2^-15) makes attest raise
+        ctx.count("config:attest-raised")
+        del e
     ctx.case(("config", kind, a, b, a_low, seed), True)
 
 
@@ -2273,7 +2304,7 @@ def protocol_cases(ctx: Ctx, scale: float):
         community_range_round(ctx, duplicate=bool(i % 2))
     for _ in range(max(2, int(2 * scale))):
         issuance_session(ctx, batch)
-    for _ in range(max(4, int(4 * scale))):
+    for _ in range(max(6, int(6 * scale))):
         schema_config_round(ctx)
     batch.flush(ctx)
 
@@ -2367,6 +2398,7 @@ REQUIRED_BRANCHES = [
     "channel:references:true-first", "channel:references:repeated-true-then-other", "channel:references:other-first",
     "config:history:mutate-dict-after-registration", "config:history:reuse-dict-for-second-schema",
     "config:history:other-manager-edits-its-default", "config:history:independent-dicts",
+    "config:history:register-same-name-again", "config:history:register-default-name-again", "config:verified:own-proof",
     "config:verified:outside-own-range", "session:prover-restarted-from-wallet-file",
 ]
 
@@ -2437,9 +2469,9 @@ def replay(ctx: Ctx, rec: dict):
               f"{'property FAILS' if ctx.failures else 'property holds'}")
         return
     if kind == "config":
-        for _ in range(4):
+        for _ in range(6):
             schema_config_round(ctx)
-        print(f"replay: the four schema-configuration histories: {'property FAILS' if ctx.failures else 'property holds'}")
+        print(f"replay: the six schema-configuration histories: {'property FAILS' if ctx.failures else 'property holds'}")
         return
     if kind == "bad-answer":
         bad_answer_cases(ctx, 1, forced=r.get("r"))
